@@ -34,6 +34,7 @@ def main():
     rc, out = sh(f"git -C /repo worktree add -q --detach {wt} HEAD")
     assert rc == 0, out
     env = dict(os.environ, PYTHONPATH=f"{wt}/src")
+    head = sh("git -C /repo rev-parse HEAD")[1].strip()
     try:
         if args.src == "stored":
             mdirs = sorted((VERIF / "seeded").glob(f"{prop}-*"))
@@ -48,8 +49,16 @@ def main():
                 print(f"{prop}-{k}: incomplete (patch/demo missing)")
                 continue
             meta = {"property": prop, "source": "independent sub-agent (property text + scratch worktree only)",
-                    "round": 2 if k.startswith("b") else 1}
-            first_file = VERIF / "seeded" / f"{prop}-{k}" / "first_contact.json"
+                    "round": 3 if k.startswith("c") else (2 if k.startswith("b") else 1)}
+            # a seed whose lines were later rewritten by a fix: commit is evaluated on the tree it was written for
+            base = None
+            pm = VERIF / "seeded" / f"{prop}-{k}" / "meta.json"
+            if pm.exists():
+                base = json.loads(pm.read_text()).get("base_commit")
+            sh(f"git -C {wt} checkout -q --detach {base or head}")
+            if base:
+                meta["base_commit"] = base
+                meta["base_note"] = json.loads(pm.read_text()).get("base_note", "")
             rc, out = sh(f"git -C {wt} apply {patch}")
             if rc != 0:
                 print(f"{prop}-{k}: patch does not apply: {out[-300:]}")
